@@ -1,3 +1,93 @@
 package main
 
-func xlate(out string) error { return nil }
+import (
+	"fmt"
+	"go/ast"
+	"go/parser"
+	"go/token"
+	"os"
+	"path/filepath"
+	"strconv"
+	"strings"
+)
+
+// xlate regenerates coq/Gen/*.v from /repo's current source.
+func xlate(out string) error {
+	if out == "" {
+		return fmt.Errorf("no output directory")
+	}
+	if err := os.MkdirAll(out, 0o755); err != nil {
+		return err
+	}
+	consts, err := xlateConsts()
+	if err != nil {
+		return err
+	}
+	return os.WriteFile(filepath.Join(out, "Consts.v"), []byte(consts), 0o644)
+}
+
+const repoRoot = "/repo"
+
+func parseFile(rel string) (*ast.File, *token.FileSet, error) {
+	fset := token.NewFileSet()
+	f, err := parser.ParseFile(fset, filepath.Join(repoRoot, rel), nil, 0)
+	return f, fset, err
+}
+
+func findFunc(f *ast.File, name string) *ast.FuncDecl {
+	for _, d := range f.Decls {
+		if fd, ok := d.(*ast.FuncDecl); ok && fd.Name.Name == name {
+			return fd
+		}
+	}
+	return nil
+}
+
+// xlateConsts: literals the properties depend on, read at named syntactic sites.
+func xlateConsts() (string, error) {
+	var sb strings.Builder
+	sb.WriteString("(* Consts.v — GENERATED on every run by `vh xlate` from /repo's source. Do not edit. *)\n")
+	sb.WriteString("From Coq Require Import List NArith ZArith.\nImport ListNotations.\n\n")
+
+	// 1. the delimiter runes of sequenceMustEndGraphemeCluster (cty/ctystrings/prefix.go)
+	f, _, err := parseFile("cty/ctystrings/prefix.go")
+	if err != nil {
+		return "", err
+	}
+	fd := findFunc(f, "sequenceMustEndGraphemeCluster")
+	if fd == nil {
+		return "", fmt.Errorf("sequenceMustEndGraphemeCluster not found")
+	}
+	var runes []string
+	ast.Inspect(fd, func(n ast.Node) bool {
+		cc, ok := n.(*ast.CaseClause)
+		if !ok {
+			return true
+		}
+		// the clause whose body returns true
+		retTrue := false
+		for _, st := range cc.Body {
+			if rs, ok := st.(*ast.ReturnStmt); ok && len(rs.Results) == 1 {
+				if id, ok := rs.Results[0].(*ast.Ident); ok && id.Name == "true" {
+					retTrue = true
+				}
+			}
+		}
+		if retTrue {
+			for _, e := range cc.List {
+				if bl, ok := e.(*ast.BasicLit); ok && bl.Kind == token.CHAR {
+					r, _, _, err := strconv.UnquoteChar(bl.Value[1:len(bl.Value)-1], '\'')
+					if err == nil {
+						runes = append(runes, fmt.Sprintf("%d", r))
+					}
+				}
+			}
+		}
+		return true
+	})
+	if len(runes) == 0 {
+		return "", fmt.Errorf("no delimiter runes found in sequenceMustEndGraphemeCluster")
+	}
+	fmt.Fprintf(&sb, "(* cty/ctystrings/prefix.go sequenceMustEndGraphemeCluster: code points of the safe delimiters *)\nDefinition safe_delims : list N := [%s]%%N.\n\n", strings.Join(runes, "; "))
+	return sb.String(), nil
+}
